@@ -229,8 +229,17 @@ def b_cur(st, b):
 def RI_body(st, b):
     buf = b_buf(st, b)
     rc, end = b_rc(st, b), b_end(st, b)
+    bio = st.obj(st.obj(b).fields["buf"])
+    if bio.pos is not None:
+        # Body uses buf.tell() as "number of buffered bytes": the stream position must be the end of the buffer
+        return [("RIb.buf-positioned-at-its-end", bio.pos == buf.length()), ("RIb.bounds", And(0 <= rc, rc <= end))] + (
+            [] if not buf.atoms else _ri_win(buf, rc, end))
     if not buf.atoms:
         return [("RIb.bounds", And(0 <= rc, rc <= end))]
+    return _ri_win(buf, rc, end)
+
+
+def _ri_win(buf, rc, end):
     w = buf.single_win()
     if w is None or not w.base.eq(Bd) or w.xf:
         return [("RIb.buf-is-body-window", FALSE)]
